@@ -55,6 +55,9 @@ class SerialQueueImpl {
   
   /// Thread function to execute operations.
   void run() {
+    // Set once the shutdown marker (a nil function) has been seen.
+    bool shuttingDown = false;
+
     while (true) {
       // Get the next operation from the queue.
       std::function<void(void)> fn;
@@ -63,6 +66,11 @@ class SerialQueueImpl {
 
         // While the queue is empty, wait for an item.
         while (operations.empty()) {
+          // Once shutting down, an empty queue means every operation has run,
+          // including the ones that were added by operations which were still
+          // running when the destructor was called.
+          if (shuttingDown)
+            return;
           readyOperationsCondition.wait(lock);
         }
 
@@ -70,10 +78,13 @@ class SerialQueueImpl {
         operations.pop_front();
       }
 
-      // If we got a nil function, the queue is shutting down.
-      if (!fn)
-        break;
-      
+      // If we got a nil function, the queue is shutting down: drain what is
+      // left (operations may have been added behind the marker) and exit.
+      if (!fn) {
+        shuttingDown = true;
+        continue;
+      }
+
       // Execute the operation.
       fn();
     }
